@@ -136,7 +136,7 @@ PROPS["C13"] = dict(
     verus=["c13_redirect", "c04_partition", "c18_gate", "c05_optimizer", "c13_store", "c03_option_text"],
     labels=["C13.", "C04.new.redirects", "C04.new.filters", "C06.add_filter.", "C18.perm.is_default", "C05.select.", "C03.option_text."] + MASK,
     kani=[],
-    witness=["c13_store.rs"],
+    witness=["c13_store.rs", "c13_model.rs"],
     trusted=["memchr::memrchr = last occurrence (shim)", "<i32 as FromStr>::from_str uninterpreted", "[T]::contains = membership",
              "data-URL formatting in ResourceStorage is lifted; the name/alias lookup is uninterpreted in the gate proof (unit c18_gate) and under contract in unit c13_store (get_internal_resource: by name, else through the alias; HashMap<String,_>::get(&str) = lookup by text)",
              "resource store (unit c13_store): the content validation at the head of add_resource (base64 / utf-8 / dependency support) is a lifted function of the resource alone (R6); once(&name).chain(aliases.iter()) and the caller's IntoIterator are materialised (R5); `.unwrap_or_else(|_e| ..)` on Result<(), _> drops the error (R6); String values are their text"],
